@@ -16,6 +16,8 @@ RULES = {
     'C15.a': 'every body that mutates Databases.pending_opps does its read-modify-write in one write section',
     'C15.b': 'ReplicationMessage::ack increases ack_count only where the previous entry of the server exists and is false; '
              'the other branches return false',
+    'C15.f': 'registering an expected acknowledgement is one unit: the insert of (server, false) into the message\'s replications '
+             'and the increment of replicate_count are control-equivalent (each is executed exactly when the other is)',
     'C15.c': 'pending_opps.remove is dominated by is_full_acknowledged() == true; is_full_acknowledged is '
              'replicate_count == ack_count',
     'C15.d': 'no fetch_sub / store on ack_count or replicate_count anywhere',
@@ -119,6 +121,29 @@ def run(ck, m):
             ck.ob('C15.b', fn, 'true-only-when-counted', okr,
                   'answers true only after the counter was increased, false otherwise' if okr else
                   'return constants: %s' % [(v, b.loc(bi)) for v, bi in srcs], '%s:%s' % (b.file, b.line))
+    # ---- (f) ---------------------------------------------------------------------------
+    nf = 0
+    for b in P.user_bodies():
+        if b.id.startswith(('nundb::client::', 'nundb::command_line::')):
+            continue
+        arms = [bi for bi, t in b.calls() if t['f'].get('dargs', '').startswith(REPLS) and callee_decl(t).endswith('::insert')
+                and len(t['args']) > 2 and [const_val(r) for r in origins(b, t['args'][2])] == [False]]
+        incs = [bi for bi, t in b.calls() if callee_decl(t).startswith('std::sync::atomic::Atomic') and callee_decl(t).endswith('::fetch_add')
+                and counter_field(b, t['args'][0]) == 'replicate_count']
+        if not arms and not incs:
+            continue
+        nf += 1
+
+        def equivalent(x, y):
+            first, second = (x, y) if b.dominates(x, y) else (y, x)
+            return b.dominates(first, second) and b.postdominates(second, first)
+        okf = bool(arms) and bool(incs) and all(any(equivalent(a, i) for i in incs) for a in arms) and all(any(equivalent(a, i) for a in arms) for i in incs)
+        ck.ob('C15.f', short(b.id), 'register-is-one-unit', okf,
+              'the expected-acknowledgement flag and replicate_count are updated together' if okf else
+              '%s re-arms the server\'s flag (insert false: %s) and counts it (fetch_add: %s) under different conditions: ack_count can reach '
+              'replicate_count while a targeted server never acknowledged, the op stops being pending too early'
+              % (short(b.id), [b.loc(x) for x in arms], [b.loc(x) for x in incs]), '%s:%s' % (b.file, b.line))
+    ck.floor('C15.f', nf, 1, 'functions registering an expected acknowledgement')
     # ---- (c) ---------------------------------------------------------------------------
     full = [b for b in P.user_bodies() if b.kind == 'method' and b.locals[0] == 'bool' and b.argc == 1
             and b.locals[1] == '&nundb::bo::ReplicationMessage']
